@@ -633,7 +633,7 @@ fn read_code<C: CodeVisitor>(
 
 						if low > high { bail!("in tableswitch `low` must be lower or equal to `high`, it's low={low:?} and high={high:?}"); }
 
-						let n = (high - low + 1) as u32; // always >= 1
+						let n = high as i64 - low as i64 + 1; // always >= 1
 
 						for _ in 0..n {
 							labels.create(r.read_i32_as_branch_target_label(opcode_pos)?)?;
@@ -1041,7 +1041,8 @@ fn read_code<C: CodeVisitor>(
 
 				if low > high { bail!("in tableswitch `low` must be lower or equal to `high`, it's low={low:?} and high={high:?}"); }
 
-				let n = (high - low + 1) as u32; // always >= 1
+				// always >= 1, and the first pass over the bytecode already read that many entries
+				let n = high as i64 - low as i64 + 1;
 
 				let mut table = Vec::with_capacity(n as usize);
 				for _ in 0..n {
